@@ -115,10 +115,11 @@ Print Assumptions C16_input_partial.
 
 (* HEADLINE — what `run` returns.  For ANY unit dynamics U, any number of populations / units / connections, any step
    size and ANY number of rows, the Euler trajectory of the population circuit is the Euler trajectory of the explicit
-   network (one scalar edge per non-zero matrix entry, parameter i on unit i, per-edge discrete delays), provided the
-   decidable guard holds: per-connection guards, none of the remaining loud classes, no DYNAMIC coupling template, no gamma-kernel delay
-   (edge states: covered per step by C16_dynamic_coupling_state/_output and C16_input_partial, and by the
-   correspondence run).  Proof: shape invariant of the state along the run + C16_input_partial at every step. *)
+   network (one scalar edge per non-zero matrix entry, parameter i on unit i, per-edge discrete delays, per-edge
+   gamma-kernel cascades, one state per (target, source) pair of a dynamic coupling template), provided the decidable
+   guard holds: per-connection guards, none of the loud classes, no gamma-kernel delay on a connection with a dynamic
+   template (not modelled).  Proof: shape invariants of the unit states and of the edge states (pair matrices, cascade
+   stages) along the run + C16_input_partial and the per-pair state equations at every step. *)
 Theorem C16_run_partial : forall U N units dt rows,
   wf_net N = true -> wf_units N units = true -> traj_guard N = true ->
   pop_run U N units dt rows = Some (exp_run 0 U N units dt rows).
@@ -128,6 +129,14 @@ Print Assumptions C16_run_partial.
 Example C16_run_nonvacuous : wf_net N_example = true /\ wf_units N_example units_example = true /\ traj_guard N_example = true.
 Proof. repeat split; vm_compute; reflexivity. Qed.
 Print Assumptions C16_run_nonvacuous.
+
+(* ... and on a network with a dynamic coupling template and a gamma-kernel delayed connection (order 4) *)
+Example C16_run_nonvacuous_dyn :
+  wf_net N_example_dyn = true /\ wf_units N_example_dyn units_example = true /\ traj_guard N_example_dyn = true /\
+  chain_order (mkq 1 1, mkq 1 2) = 4%nat /\
+  list_eqb pstate_eqb (nth 3 (exp_run 0 unit_poly N_example_dyn units_example (mkq 1 4) 4) []) units_example = false.
+Proof. exact nonvacuous_dyn. Qed.
+Print Assumptions C16_run_nonvacuous_dyn.
 
 (* The full-strength statement (every well-formed population circuit runs like its explicit network) is FALSE of the
    faithful model (the refutations of the classes F2 / F3 carry the hypothesis that the repair switch of Population.v is off); it stays visible here and is refuted by computed witnesses that also fail on the real code
@@ -166,21 +175,23 @@ Theorem C16_alias_before_fix : fixed_F6 = false ->
 Proof. exact alias_before_fix. Qed.
 Print Assumptions C16_alias_before_fix.
 
-(* loud classes that remain: a coupling template on a one-row / one-column matrix, a delayed 1 x 1 matrix — the
-   population circuit raises *)
-Theorem C16_refuted_loud :
-  (wf_net N_coupling_shape = true /\ g_coupling_shape N_coupling_shape = false /\
-   pop_run unit_poly N_coupling_shape [st1 [mkq 1 2; mkq 1 1] [0; 0]; st1 (mkq 1 1 :: nil) (0 :: nil)] (mkq 1 4) 2 = None) /\
-  (wf_net N_delay_1x1 = true /\ g_delay_shape N_delay_1x1 = false /\
-   pop_run unit_poly N_delay_1x1 [st1 (mkq 1 2 :: nil) (0 :: nil); st1 (mkq 1 1 :: nil) (0 :: nil)] (mkq 1 4) 2 = None).
-Proof. exact refuted_loud. Qed.
-Print Assumptions C16_refuted_loud.
+(* the loud shape classes (proposed repairs F5, F7): a coupling template on a one-row / one-column matrix, a delayed
+   1 x 1 matrix — the population circuit raises while the switch is off *)
+Theorem C16_coupling_shape_before_fix : fixed_F5 = false ->
+  wf_net N_coupling_shape = true /\ g_coupling_shape N_coupling_shape = false /\
+  pop_run unit_poly N_coupling_shape [st1 [mkq 1 2; mkq 1 1] [0; 0]; st1 (mkq 1 1 :: nil) (0 :: nil)] (mkq 1 4) 2 = None.
+Proof. exact coupling_shape_before_fix. Qed.
+Print Assumptions C16_coupling_shape_before_fix.
+
+Theorem C16_delay_1x1_before_fix : fixed_F7 = false ->
+  wf_net N_delay_1x1 = true /\ g_delay_shape N_delay_1x1 = false /\
+  pop_run unit_poly N_delay_1x1 [st1 (mkq 1 2 :: nil) (0 :: nil); st1 (mkq 1 1 :: nil) (0 :: nil)] (mkq 1 4) 2 = None.
+Proof. exact delay_1x1_before_fix. Qed.
+Print Assumptions C16_delay_1x1_before_fix.
 
 Theorem C16_full_refuted : ~ C16_full_statement.
 Proof.
-  intros H. destruct refuted_loud as ((Hwf & _ & Hnone) & _).
-  specialize (H N_coupling_shape [st1 [mkq 1 2; mkq 1 1] [0; 0]; st1 (mkq 1 1 :: nil) (0 :: nil)] (mkq 1 4) 2%nat Hwf eq_refl).
-  rewrite Hnone in H. discriminate H.
+  intros H. destruct refuted_near_one as (Hwf & _ & Hne). apply Hne. apply H; [exact Hwf|vm_compute; reflexivity].
 Qed.
 Print Assumptions C16_full_refuted.
 
